@@ -46,8 +46,22 @@ def slice_with_bool_dask_array(x, index):
 
     out_index = [slice(None) if isinstance(ind, Array) and ind.dtype == bool else ind for ind in index]
 
+    # A mask of the wrong (known) length is an error in NumPy; blockwise would
+    # instead broadcast a length-1 mask against every block
+    full = len(index) == 1 and index[0].ndim == x.ndim
+    for dim, ind in enumerate(index):
+        if not (isinstance(ind, Array) and ind.dtype == bool):
+            continue
+        want = x.shape if full else x.shape[dim : dim + 1]
+        for off, (n, m) in enumerate(zip(want, ind.shape)):
+            if not np.isnan(n) and not np.isnan(m) and n != m:
+                raise IndexError(
+                    f"boolean index did not match indexed array along axis {dim + off}; "
+                    f"size of axis is {n} but size of corresponding boolean axis is {m}"
+                )
+
     # Case 1: Full-dimensional boolean mask
-    if len(index) == 1 and index[0].ndim == x.ndim:
+    if full:
         if not np.isnan(x.shape).any() and not np.isnan(index[0].shape).any():
             x = x.ravel()
             index = tuple(i.ravel() for i in index)
